@@ -292,8 +292,20 @@ def table():
     if os.path.exists(tp):
         tri = json.load(open(tp))
     from collections import Counter
+    import re
     c = Counter()
     rows = []
+
+    def auto(m):
+        if re.search(r"delete `(self\.)?(log|logging|_logger)\.", m["desc"]):
+            return "log call"
+        if m["op"] == "retnone" and m["desc"].endswith("`False`"):
+            return "equivalent: falsy either way"
+        if m["op"] == "delstmt" and re.fullmatch(r"delete `[A-Z_0-9]+ = '.*'`", m["desc"]) and m["file"].endswith("common.py"):
+            return "enum member nothing in the package refers to"
+        if m["op"] in ("int+1", "int-1") and m["stmt"].startswith("def ") is False and m["fn"].endswith("__init__") and "heartbeat" in m.get("stmt", ""):
+            return "default heartbeat period"
+        return ""
     for m in data["mutants"]:
         r = results.get(m["id"])
         if not r:
@@ -314,7 +326,7 @@ def table():
         fh.write("| id | where | mutation | checks | triage |\n|---|---|---|---|---|\n")
         for m, verdict, hits in rows:
             hs = "; ".join(h[:90] for h in hits[:3]).replace("|", "\\|")
-            fh.write(f"| {m['id']} | {m['file'].replace('asyncfix/', '')}:{m['line']} {m['fn']} | {(m['desc'] + (' @ `' + m.get('stmt', '') + '`' if m['op'] in ('boolflip', 'int+1', 'int-1') else '')).replace('|', chr(92) + '|')} | {verdict}{': ' + hs if hs else ''} | {tri.get(m['id'], '')} |\n")
+            fh.write(f"| {m['id']} | {m['file'].replace('asyncfix/', '')}:{m['line']} {m['fn']} | {(m['desc'] + (' @ `' + m.get('stmt', '') + '`' if m['op'] in ('boolflip', 'int+1', 'int-1') else '')).replace('|', chr(92) + '|')} | {verdict}{': ' + hs if hs else ''} | {tri.get(m['id'], '') or auto(m)} |\n")
     print(dict(c))
 
 
